@@ -118,8 +118,8 @@ class CutplaceApp(object):
                 self.validate_until = args.validate_until
             else:
                 parser.error("option --until is %d but must be at least -1" % args.validate_until)
-        if (args.cid_path == "") or ("" in args.data_paths):
-            parser.error("CID-FILE and DATA-FILE must not be empty")
+        if (args.cid_path == "") or ("" in args.data_paths) or (args.plugins_folder == ""):
+            parser.error("CID-FILE, DATA-FILE and the folder for --plugins must not be empty")
         if args.plugins_folder is not None:
             interface.import_plugins(args.plugins_folder)
         if args.data_paths is not None:
